@@ -39,8 +39,8 @@ static bool judge(const char *prop, const char *key, const char *fmt, ...) {
 }
 
 typedef struct { unsigned char *base, *p; size_t n; } cbuf_t;
-static cbuf_t cb_make(const void *src, size_t n, bool odd) {
-    cbuf_t c; size_t off = odd ? 1 : 0;
+static cbuf_t cb_make(const void *src, size_t n, unsigned off) {   /* off: the copy starts at this offset inside its block (0..3): equal keys reach the library through differently aligned pointers */
+    cbuf_t c;
     c.base = hm_alloc(n + off); c.p = c.base + off; c.n = n;
     if (n) memcpy(c.p, src, n);
     return c;
@@ -171,7 +171,7 @@ static void table_free(void) {
 static const int64_t INTS[] = {0, 1, -1, INT64_MIN, INT64_MAX, 42, -9000000000LL};
 static void op_put(int id) {
     int api = (int)rng_below(&R, 8);   /* 0-3 put, 4 putstr, 5 putstrf, 6 putint, 7 put */
-    cbuf_t kb = cb_make(UK[id], strlen(UK[id]) + 1, P == 11 && rng_chance(&R, 1, 2));
+    cbuf_t kb = cb_make(UK[id], strlen(UK[id]) + 1, rng_below(&R, 4));
     bool r; size_t vl; bool wasnew = !MP[id];
     if (api == 6) {
         int64_t v = rng_chance(&R, 1, 2) ? INTS[rng_below(&R, 7)] : (int64_t)rng_next(&R);
@@ -199,7 +199,7 @@ static void op_put(int id) {
 static void op_get(int id) {
     int api = (int)rng_below(&R, 2); bool newmem = rng_chance(&R, 1, 2);
     if (api == 1 && MP[id] && (MVL[id] == 0 || MV[id][MVL[id] - 1] != 0 || strlen((char *)MV[id]) + 1 != MVL[id])) api = 0;
-    cbuf_t kb = cb_make(UK[id], strlen(UK[id]) + 1, P == 11 && rng_chance(&R, 1, 2));
+    cbuf_t kb = cb_make(UK[id], strlen(UK[id]) + 1, rng_below(&R, 4));
     size_t sz = 999; void *d; errno = 0;
     vf_log("get[%d,newmem=%d] k%d", api, newmem, id);
     if (api == 0) d = T->get(T, (char *)kb.p, optout(&sz, MP[id] ? MVL[id] : sz), newmem);
@@ -214,7 +214,7 @@ static void op_get(int id) {
     if (d && newmem) free(d);
 }
 static void op_remove(int id, const char *posclass) {
-    cbuf_t kb = cb_make(UK[id], strlen(UK[id]) + 1, P == 11 && rng_chance(&R, 1, 2));
+    cbuf_t kb = cb_make(UK[id], strlen(UK[id]) + 1, rng_below(&R, 4));
     vf_log("remove k%d=%s (%s)", id, vf_hex(UK[id], strlen(UK[id])), posclass);
     errno = 0;
     bool r = T->remove(T, (char *)kb.p); int e = errno;
